@@ -2,6 +2,10 @@
 
 package boxes
 
+import pr "github.com/benoitkugler/webrender/css/properties"
+
+var _ = pr.AutoF
+
 // Contracts for the deductive verifier in /verif (build tag verif: not compiled
 // into normal builds).
 
@@ -10,3 +14,66 @@ package boxes
 //@ func iface (boxes.Box).Box
 //@   pure
 //@   ensures result != nil
+
+// Box geometry (CSS 2.1 §8.1 box model): widths/heights of the padding, border and
+// margin boxes and the positions of their corners, as sums of the used values.
+//@ func (*BoxFields).PaddingWidth
+//@   props C10 C17
+//@   nopanic
+//@   requires b != nil && b.Width != nil && b.PaddingLeft != nil && b.PaddingRight != nil
+//@   ensures result == pr.VV(b.Width) + pr.VV(b.PaddingLeft) + pr.VV(b.PaddingRight)
+//@ func (*BoxFields).PaddingHeight
+//@   props C10 C17
+//@   nopanic
+//@   requires b != nil && b.Height != nil && b.PaddingTop != nil && b.PaddingBottom != nil
+//@   ensures result == pr.VV(b.Height) + pr.VV(b.PaddingTop) + pr.VV(b.PaddingBottom)
+//@ func (*BoxFields).BorderWidth
+//@   props C10 C17
+//@   nopanic
+//@   requires b != nil && b.Width != nil && b.PaddingLeft != nil && b.PaddingRight != nil && b.BorderLeftWidth != nil && b.BorderRightWidth != nil
+//@   ensures result == pr.VV(b.Width) + pr.VV(b.PaddingLeft) + pr.VV(b.PaddingRight) + pr.VV(b.BorderLeftWidth) + pr.VV(b.BorderRightWidth)
+//@ func (*BoxFields).BorderHeight
+//@   props C10 C17
+//@   nopanic
+//@   requires b != nil && b.Height != nil && b.PaddingTop != nil && b.PaddingBottom != nil && b.BorderTopWidth != nil && b.BorderBottomWidth != nil
+//@   ensures result == pr.VV(b.Height) + pr.VV(b.PaddingTop) + pr.VV(b.PaddingBottom) + pr.VV(b.BorderTopWidth) + pr.VV(b.BorderBottomWidth)
+//@ func (*BoxFields).MarginWidth
+//@   props C10
+//@   nopanic
+//@   requires b != nil && b.Width != nil && b.PaddingLeft != nil && b.PaddingRight != nil && b.BorderLeftWidth != nil && b.BorderRightWidth != nil && b.MarginLeft != nil && b.MarginRight != nil
+//@   ensures result == pr.VV(b.MarginLeft) + pr.VV(b.BorderLeftWidth) + pr.VV(b.PaddingLeft) + pr.VV(b.Width) + pr.VV(b.PaddingRight) + pr.VV(b.BorderRightWidth) + pr.VV(b.MarginRight)
+//@ func (*BoxFields).MarginHeight
+//@   props C10
+//@   nopanic
+//@   requires b != nil && b.Height != nil && b.PaddingTop != nil && b.PaddingBottom != nil && b.BorderTopWidth != nil && b.BorderBottomWidth != nil && b.MarginTop != nil && b.MarginBottom != nil
+//@   ensures result == pr.VV(b.MarginTop) + pr.VV(b.BorderTopWidth) + pr.VV(b.PaddingTop) + pr.VV(b.Height) + pr.VV(b.PaddingBottom) + pr.VV(b.BorderBottomWidth) + pr.VV(b.MarginBottom)
+//@ func (*BoxFields).ContentBoxX
+//@   props C10
+//@   nopanic
+//@   requires b != nil && b.MarginLeft != nil && b.PaddingLeft != nil && b.BorderLeftWidth != nil
+//@   ensures result == b.PositionX + pr.VV(b.MarginLeft) + pr.VV(b.BorderLeftWidth) + pr.VV(b.PaddingLeft)
+//@ func (*BoxFields).ContentBoxY
+//@   props C10
+//@   nopanic
+//@   requires b != nil && b.MarginTop != nil && b.PaddingTop != nil && b.BorderTopWidth != nil
+//@   ensures result == b.PositionY + pr.VV(b.MarginTop) + pr.VV(b.BorderTopWidth) + pr.VV(b.PaddingTop)
+//@ func (*BoxFields).PaddingBoxX
+//@   props C10
+//@   nopanic
+//@   requires b != nil && b.MarginLeft != nil && b.BorderLeftWidth != nil
+//@   ensures result == b.PositionX + pr.VV(b.MarginLeft) + pr.VV(b.BorderLeftWidth)
+//@ func (*BoxFields).PaddingBoxY
+//@   props C10
+//@   nopanic
+//@   requires b != nil && b.MarginTop != nil && b.BorderTopWidth != nil
+//@   ensures result == b.PositionY + pr.VV(b.MarginTop) + pr.VV(b.BorderTopWidth)
+//@ func (*BoxFields).BorderBoxX
+//@   props C10 C17
+//@   nopanic
+//@   requires b != nil && b.MarginLeft != nil
+//@   ensures result == b.PositionX + pr.VV(b.MarginLeft)
+//@ func (*BoxFields).BorderBoxY
+//@   props C10 C17
+//@   nopanic
+//@   requires b != nil && b.MarginTop != nil
+//@   ensures result == b.PositionY + pr.VV(b.MarginTop)
